@@ -6,6 +6,8 @@ import (
 	"fmt"
 	"math/rand"
 	"sort"
+	"sync"
+	"sync/atomic"
 	"time"
 
 	"verif/fw"
@@ -441,6 +443,70 @@ func c01Wire(c *fw.Ctx, nClusters int) {
 				touched[n] = true
 			}
 		}
+		// concurrent phase: 8 callers at once; two simultaneous misses may both look
+		// up, but a key whose region was resolved before this phase must not be looked up
+		if ok {
+			mark := cl.Log.Len()
+			resolved := map[string]bool{}
+			for n := range touched {
+				resolved[n] = true
+			}
+			var wg sync.WaitGroup
+			var cfail int32
+			for g := 0; g < 8; g++ {
+				seed := r.Int63()
+				wg.Add(1)
+				go func(g int) {
+					defer wg.Done()
+					rr := rand.New(rand.NewSource(seed))
+					for k := 0; k < 6; k++ {
+						t := tnames[rr.Intn(len(tnames))]
+						key := c01Key(rr, 4)
+						ctx, cancel := context.WithTimeout(context.Background(), 20*time.Second)
+						opid := fmt.Sprintf("%s%d-%d-c%d-%d", sim.OpIDPrefix, c.Batch, ci, g, k)
+						var err error
+						if rr.Intn(2) == 0 {
+							gt, _ := hrpc.NewGet(ctx, []byte(t), key, hrpc.Families(map[string][]string{"echo": {opid}}))
+							_, err = client.Get(gt)
+						} else {
+							p, _ := hrpc.NewPut(ctx, []byte(t), key, map[string]map[string][]byte{"f": {opid: []byte("v")}})
+							_, err = client.Put(p)
+						}
+						cancel()
+						if err != nil {
+							atomic.AddInt32(&cfail, 1)
+						}
+					}
+				}(g)
+			}
+			if !within(60*time.Second, wg.Wait) {
+				c.Violate(caseID, "wire:request-stuck", "concurrent phase did not finish in 60s on a static fault-free cluster", descr)
+			} else {
+				if n := atomic.LoadInt32(&cfail); n > 0 {
+					c.Violate(caseID, "wire:request-failed", fmt.Sprintf("%d request(s) of the concurrent phase failed on a static fault-free cluster", n), descr)
+				}
+				for _, e := range cl.Log.Snapshot()[mark:] {
+					switch e.Kind {
+					case "meta-lookup":
+						if o := cl.Owner(e.Table, e.Row); o != nil && resolved[string(o.Name)] {
+							c.Violate(caseID, "wire:lookup-for-cached-key", fmt.Sprintf("concurrent phase: meta lookup for %s key %q although its region %q had been resolved before", e.Table, e.Row, o.Name), descr)
+						}
+						c.Count("wire_meta_lookups", 1)
+					case "misroute":
+						c.Violate(caseID, "wire:misrouted", fmt.Sprintf("concurrent phase: %s row %q sent to region %q on %s which does not contain it", e.OpID, e.Row, e.Region, e.Server), descr)
+					case "exec-fault":
+						if e.OpID != "" {
+							c.Violate(caseID, "wire:wrong-server-or-region", fmt.Sprintf("concurrent phase: %s row %q region %q on %s: %s", e.OpID, e.Row, e.Region, e.Server, e.Info), descr)
+						}
+					case "exec":
+						if e.OpID != "" {
+							c.Count("wire_actions_checked", 1)
+							c.Count("wire_concurrent_actions_checked", 1)
+						}
+					}
+				}
+			}
+		}
 		if ci == 0 {
 			c.Sample(map[string]any{"kind": "wire", "layout": descr, "requests": nReq})
 		}
@@ -461,7 +527,8 @@ func init() {
 			"compared with brute-force containment (each (layout,subset,table,key) is distinct by construction); " +
 			"(2) real client vs simulated cluster: seeded clusters of 1..4 hostile-named tables with 1..6 regions, " +
 			"40..70 sequential requests of all kinds incl. batches over boundary-adjacent keys; every executed action " +
-			"judged by owner(table,row)==(region,server) and meta lookups counted per first touch. distinct wire case = " +
+			"judged by owner(table,row)==(region,server) and meta lookups counted per first touch; then 8 concurrent callers x 6 requests " +
+			"(no lookup for keys of regions resolved before, no misrouting). distinct wire case = " +
 			"(kind, table, layout, keys)",
 		Assumptions: []string{
 			"the simulated hbase:meta answers lookups semantically (tuple order), independent of the client's comparator",
@@ -475,7 +542,7 @@ func init() {
 		},
 		Floors: func(tier string) map[string]int64 {
 			return map[string]int64{"cache_lookups_checked": 1000000, "wire_actions_checked": 2000, "wire_meta_lookups": 100,
-				"wire_clusters": 200, "lookup_class_key==boundary": 1000, "lookup_class_comma-key": 1000}
+				"wire_clusters": 200, "wire_concurrent_actions_checked": 5000, "lookup_class_key==boundary": 1000, "lookup_class_comma-key": 1000}
 		},
 		Run: func(c *fw.Ctx) {
 			c01Lookup(c)
